@@ -2,6 +2,7 @@
 //! `vh <prop> run`                reads cases on stdin, runs the real library, one result line per case
 mod util;
 mod c02;
+mod c03;
 mod c05;
 mod c09;
 mod c10;
@@ -22,6 +23,8 @@ fn main() {
     match (prop, mode) {
         ("c02", "gen") => c02::gen(seed, thorough),
         ("c02", "run") => c02::run(),
+        ("c03", "gen") => c03::gen(seed, thorough),
+        ("c03", "run") => c03::run(),
         ("c05", "gen") => c05::gen(seed, thorough),
         ("c05", "run") => c05::run(),
         ("c09", "gen") => c09::gen(seed, thorough),
